@@ -944,3 +944,43 @@ def d3_enumerate(f):
         f._lost('D3 for (i, x) in E.enumerate()')
     f.log.rule('D3', f, '%d enumerate() loop(s) -> explicit counter' % n)
     return f
+
+
+def d14_flat_map_option(f, elem_ty, captures, fname='verif_flat_map_0', call_prefix=''):
+    """D14: `RECV.iter().flat_map(|p| {BODY}).flatten().collect::<Vec<T>>()` where BODY yields Option<Vec<T>> (with early
+    `return None;`)  ->  the expression is replaced by an accumulator filled by
+         for p in RECV.iter() { if let Some(mut v) = FNAME(p, CAPTURES) { acc.append(&mut v); } }
+    placed before the enclosing `let`; BODY is lifted verbatim into `fn FNAME(p: &P, CAPTURES) -> Option<Vec<T>> {BODY}` (returned
+    as text).  flat_map over an Option yields its content (if any), flatten() concatenates the vectors in order."""
+    t = f.text
+    mask = code_mask(t)
+    m = None
+    for x in re.finditer(r'\.flat_map\(\|(\w+)\|\s*\{', t):
+        if mask[x.start()]:
+            m = x
+            break
+    if m is None:
+        f._lost('D14 .flat_map(|p| {..})')
+    bo = m.end() - 1
+    bc = match_brace(t, mask, bo)
+    tail = re.match(r'\s*\)\s*\.flatten\(\)\s*\.collect::<Vec<' + re.escape(elem_ty) + r'>>\(\)', t[bc + 1:])
+    if not tail:
+        f._lost('D14: .flatten().collect::<Vec<%s>>() expected after the closure' % elem_ty)
+    lets = [x for x in re.finditer(r'let (\w+)(\s*:\s*[^=;]+?)?\s*=\s*', t[:m.start()])]
+    if not lets:
+        f._lost('D14: enclosing let not found')
+    L = lets[-1]
+    recv = t[L.end():m.start()]
+    if ';' in recv or not re.sub(r'\s+', '', recv).endswith('.iter()'):
+        f._lost('D14: receiver not understood')
+    recv_s = re.sub(r'\s+', '', recv)
+    var = m.group(1)
+    body = t[bo:bc + 1]
+    ind = re.search(r'[ \t]*$', t[:L.start()]).group(0)
+    call_args = ''.join(', ' + c[2] for c in captures)
+    pre = ('let mut verif_fm_acc: Vec<%s> = Vec::new();\n%sfor %s in %s {\n%s    if let Some(mut verif_fm_v) = %s(%s%s) {\n%s        verif_fm_acc.append(&mut verif_fm_v);\n%s    }\n%s}\n%s'
+           % (elem_ty, ind, var, recv_s, ind, call_prefix + fname, var, call_args, ind, ind, ind, ind))
+    f.text = t[:L.start()] + pre + t[L.start():L.end()] + 'verif_fm_acc' + t[bc + 1 + tail.end():]
+    params = ''.join(', %s: %s' % (c[0], c[1]) for c in captures)
+    f.log.rule('D14', f, 'flat_map(closure -> Option<Vec<%s>>).flatten().collect() -> accumulator loop, closure body lifted verbatim into %s' % (elem_ty, fname))
+    return 'fn %s(%s: &%s%s) -> Option<Vec<%s>> %s' % (fname, var, '%s', params, elem_ty, body)
